@@ -11,10 +11,13 @@ func init() { register("C04", runC04) }
 
 func runC04(e *Env) error {
 	r := e.Rep
+	if e.Replay != "" && c04Replay(e) {
+		return nil
+	}
 	rg := e.Rng
 	r.Rule = "(a) tag-free byte strings render as themselves; (b) literal chunks (multi-byte, invalid UTF-8, NUL, lone braces, %, quotes, line breaks) interleaved with print tags of marker variables and comments: " +
 		"output = chunks interleaved with values, each chunk exactly once and in order; (c) comment bodies containing tags/calls are never evaluated (spy counters); (d) verbatim bodies render the same under different contexts; " +
-		"(e) chunks around tags with partly scannable content (unclosed quotes, backslashes, bytes without a scanner rule, empty tags): model and unit-by-unit concatenation; (f) *Template objects held across re-registration, other parses and setting changes keep rendering their own text; every case also goes through the Lean pipeline model; non-trivial = has at least one tag and one non-empty chunk; distinct by source"
+		"(e) chunks around tags with partly scannable content (unclosed quotes, backslashes, bytes without a scanner rule, empty tags): model and unit-by-unit concatenation; (f) *Template objects held across re-registration, other parses and setting changes keep rendering their own text; (g) comment-shaped sources (escaped openers, comment syntax in string literals, comments next to trimming delimiters) and every generated source by every route into an engine (compiled forms, loaders, pre-parsed templates) render as the directly parsed source; (h) templates parsed by 8 goroutines at once on 1 and 2 processors render their own lines only; every case also goes through the Lean pipeline model; non-trivial = has at least one tag and one non-empty chunk; distinct by source"
 	// (a) tag-free text
 	n := e.N(400, 20000)
 	for i := 0; i < n && !r.Full(); i++ {
@@ -37,6 +40,10 @@ func runC04(e *Env) error {
 	}
 	// (a') literal text longer than the output buffers (32 KiB steps), multi-byte, through Render and RenderTo
 	bigTextOracle(e)
+	// (g) comment-shaped sources, and every source by every route into an engine (c04_routes.go): the corpus
+	if err := commentShapedCorpus(e); err != nil {
+		return err
+	}
 	// (b)+(c) chunks, print tags, comments
 	n = e.N(1200, 60000)
 	for i := 0; i < n && !r.Full(); i++ {
@@ -79,7 +86,7 @@ func runC04(e *Env) error {
 			r.Hit("large-template")
 		}
 		c := &Case{Templates: map[string]string{"main": src.String()}, Main: "main", Ctx: ctx, SpyFunctions: []string{"spyfn"}, FailAt: -1}
-		im, _, _, err := compareCase(e, c, "render-model-c04", "correspondence render (Lean pipeline vs real engine) on literal-text templates")
+		im, _, _, err := c04Compare(e, c, "render-model-c04", "correspondence render (Lean pipeline vs real engine) on literal-text templates")
 		if err != nil {
 			return err
 		}
@@ -105,7 +112,7 @@ func runC04(e *Env) error {
 		src := l + "{{- v -}}" + rgt
 		want := trimWsRight(l) + "V" + trimWsLeft(rgt)
 		c := &Case{Templates: map[string]string{"main": src}, Main: "main", Ctx: map[string]any{"v": "V"}, FailAt: -1}
-		im, _, _, err := compareCase(e, c, "render-model-c04", "correspondence render on dashed literal chunks")
+		im, _, _, err := c04Compare(e, c, "render-model-c04", "correspondence render on dashed literal chunks")
 		if err != nil {
 			return err
 		}
@@ -128,11 +135,15 @@ func runC04(e *Env) error {
 		}
 		src := sb.String()
 		c := &Case{Templates: map[string]string{"main": src}, Main: "main", Ctx: map[string]any{"v": "V"}, FailAt: -1}
-		if _, _, _, err := compareCase(e, c, "render-model-c04", "correspondence render on escaped openers"); err != nil {
+		if _, _, _, err := c04Compare(e, c, "render-model-c04", "correspondence render on escaped openers"); err != nil {
 			return err
 		}
 		r.Seen("esc:"+src, true)
 		r.Hit("escaped-openers")
+	}
+	// (g) random comment-shaped sources
+	if err := commentShapedRandom(e); err != nil {
+		return err
 	}
 	// (e) literal text around tags whose content the expression scanner only partly understands (c04_sloppy.go)
 	if err := sloppyTagCases(e); err != nil {
@@ -140,6 +151,8 @@ func runC04(e *Env) error {
 	}
 	// (f) templates held by the caller while the engine re-registers, parses and reconfigures (c04_held.go)
 	heldTemplateCases(e)
+	// (h) templates parsed by several goroutines at once keep their own text (c04_concurrent.go)
+	concurrentParseCases(e)
 	// (b3) literal text of a macro body, escaped openers included, is what the same text is at the top level
 	for i := 0; i < e.N(60, 2000) && !r.Full(); i++ {
 		var sb strings.Builder
@@ -181,7 +194,7 @@ func runC04(e *Env) error {
 		src := genLit(rg, 5) + vb + genLit(rg, 5)
 		c1 := &Case{Templates: map[string]string{"main": src}, Main: "main", Ctx: map[string]any{"secret": "S3CR3T"}, SpyFunctions: []string{"spyfn"}, FailAt: -1}
 		c2 := &Case{Templates: map[string]string{"main": src}, Main: "main", Ctx: map[string]any{"secret": []interface{}{"zzTOPzz"}}, SpyFunctions: []string{"spyfn"}, FailAt: -1}
-		i1, _, _, err := compareCase(e, c1, "render-model-c04", "correspondence render on verbatim templates")
+		i1, _, _, err := c04Compare(e, c1, "render-model-c04", "correspondence render on verbatim templates")
 		if err != nil {
 			return err
 		}
